@@ -79,6 +79,37 @@ def check_labels(h: Harness, site, spec, b, v):
             f"gengy_* metadata differs from an independent traversal of {s[:240]}", [sx(line_spec), s])
 
 
+def check_mapped_programs(h: Harness, spec, b, g, mind, rng):
+    """programs built from linear / structured genotypes (GE, SGE, dynamic SGE, stack) are programs the
+    library creates too"""
+    from linear import DSGE, GE, SGE, Stack, safe
+    from geneticengine.random.sources import NativeRandomSource
+    d = mind + rng.choice([1, 2, 3])
+    shared = NativeRandomSource(rng.randrange(10**6))
+    reps = [("GE", GE(g, synth.make_decider("grow", d, shared, g), gene_length=32)),
+            ("SGE", SGE(g, synth.make_decider("grow", d, shared, g), gene_length=32)),
+            ("DynamicSGE", DSGE(g, d)), ("Stack", Stack(g, gene_length=128))]
+    for name, rep in reps:
+        st, geno = safe(lambda: rep.create_genotype(shared))
+        if st != "ok":
+            continue
+        for op in ("create", "mutate"):
+            if op == "mutate":
+                st, geno = safe(lambda: rep.mutate(shared, geno))
+                if st != "ok":
+                    break
+            st, p = safe(lambda: rep.genotype_to_phenotype(geno))
+            if st != "ok":
+                continue
+            h.count(f"mapped:{name}")
+            site = f"{name}.genotype_to_phenotype"
+            if type(p) in b.index and not hasattr(p, "gengy_nodes"):
+                h.fail(site, "program-carries-no-metadata", f"the program {sx(gram.canon(p, b))[:160]} carries no gengy_nodes / gengy_distance_to_term / "
+                       "gengy_weighted_nodes / gengy_types_this_way at all", [sx(gram.spec_sx(spec)), name])
+                continue
+            check_labels(h, site, spec, b, p)
+
+
 def context_programs(h: Harness):
     from geneticengine.random.sources import NativeRandomSource
     from geneticengine.representations.tree.initializations import MaxDepthDecider, PositionIndependentGrowDecider
@@ -111,7 +142,10 @@ def run(h: Harness):
     rng = h.rng
     context_programs(h)
     for _ in range(h.n(150, 3000)):
-        spec = gram.productive_spec(rng, max_classes=rng.choice([3, 4, 6]), opts={"float": False})
+        # a third of the grammars count depth by grammar expansion (extract_grammar(..., expansion_depthing=True))
+        expansion = rng.random() < 0.33
+        spec = gram.productive_spec(rng, max_classes=rng.choice([3, 4, 6]), opts={"float": False}, expansion=expansion)
+        h.count("depth-mode:expansion" if expansion else "depth-mode:nodes")
         b = gram.build(spec)
         try:
             g = b.extract()
@@ -120,6 +154,8 @@ def run(h: Harness):
         mind = g.get_min_tree_depth()
         if mind >= 1000000:
             continue
+        if rng.random() < 0.4:
+            check_mapped_programs(h, spec, b, g, mind, rng)
         for _ in range(3):
             kind = rng.choice(["grow", "full", "pigrow", "progressive"])
             depth = mind + rng.choice([0, 1, 2, 3])
